@@ -5,7 +5,7 @@ EXTENDS BclSem
 VocabSmall == {"INT1", "INT2", "STR", "IDx", "IDstruct", "IDall", "var", "def", "eval", "print", "bind", "true", "not", "and",
           "=", "{", "}", "(", ")", "==", "+", "*", ":", "->", ";"}
 \* the full vocabulary: every token kind and every operator spelling (each has its own code path in an implementation)
-VocabFull == VocabSmall \cup {"or", "-", "/", "!=", "<", "<=", ">", ">=", "FLOAT", "false", "nil", "IDslice", "IDfirst", "IDlast"}
+VocabFull == VocabSmall \cup {"or", "-", "/", "!=", "<", "<=", ">", ">=", "FLOAT", "false", "nil", "IDslice", "IDfirst", "IDlast", "INT01", "INT0x1"}
 Vocab == VocabSmall
 Spell(k) == CASE k = "INT1" -> <<49>> [] k = "INT2" -> <<50>> [] k = "STR" -> <<34, 115, 34>> [] k = "IDx" -> <<120>>
               [] k = "IDstruct" -> <<115, 116, 114, 117, 99, 116>> [] k = "IDall" -> <<97, 108, 108>>
@@ -16,6 +16,7 @@ Spell(k) == CASE k = "INT1" -> <<49>> [] k = "INT2" -> <<50>> [] k = "STR" -> <<
               [] k = ":" -> <<58>> [] k = "->" -> <<45, 62>> [] k = ";" -> <<59>>
               [] k = "or" -> <<111, 114>> [] k = "-" -> <<45>> [] k = "/" -> <<47>> [] k = "!=" -> <<33, 61>> [] k = "<" -> <<60>> [] k = "<=" -> <<60, 61>>
               [] k = ">" -> <<62>> [] k = ">=" -> <<62, 61>> [] k = "FLOAT" -> <<50, 46, 53>> [] k = "false" -> <<102, 97, 108, 115, 101>> [] k = "nil" -> <<110, 105, 108>>
+              [] k = "INT01" -> <<48, 49>> [] k = "INT0x1" -> <<48, 120, 49>>       \* other spellings of the value one: not the selector '1'
               [] k = "IDslice" -> <<115, 108, 105, 99, 101>> [] k = "IDfirst" -> <<102, 105, 114, 115, 116>> [] k = "IDlast" -> <<108, 97, 115, 116>>
 RECURSIVE Src(_)
 Src(ts) == IF ts = <<>> THEN <<>> ELSE Spell(Head(ts)) \o <<32>> \o Src(Tail(ts))
@@ -30,7 +31,7 @@ RECURSIVE PLoop(_, _, _, _)
 PExpr(ts, i, minp) ==
   LET k == At(ts, i) IN
   LET left ==
-    CASE k \in {"INT1", "INT2"} -> Ok(i + 1, Lit(IntV(IF k = "INT1" THEN 1 ELSE 2)))
+    CASE k \in {"INT1", "INT2", "INT01", "INT0x1"} -> Ok(i + 1, Lit(IntV(IF k = "INT2" THEN 2 ELSE 1)))
       [] k = "STR" -> Ok(i + 1, Lit(StrV(<<115>>)))
       [] k = "true" -> Ok(i + 1, Lit(BoolV(TRUE)))
       [] k = "false" -> Ok(i + 1, Lit(BoolV(FALSE)))
@@ -70,7 +71,7 @@ PStmt(ts, i, depth) ==
                       ELSE LET hasSel == At(ts, i + 2) = ":"
                                selTok == At(ts, i + 3)
                                sel == IF ~hasSel THEN "none" ELSE IF selTok = "INT1" THEN "one" ELSE IF selTok = "IDall" THEN "all" ELSE IF selTok = "IDfirst" THEN "first" ELSE IF selTok = "IDlast" THEN "last" ELSE "bogus"
-                               selOk == ~hasSel \/ selTok \in {"INT1", "INT2"} \/ IsIdent(selTok)
+                               selOk == ~hasSel \/ selTok \in {"INT1", "INT2", "INT01", "INT0x1"} \/ IsIdent(selTok)
                                j == IF hasSel THEN i + 4 ELSE i + 2
                            IN IF ~selOk THEN FlS(i + 3) ELSE IF At(ts, j) # "->" THEN FlS(j) ELSE IF ~IsIdent(At(ts, j + 1)) THEN FlS(j + 1)
                               ELSE [ok |-> TRUE, i |-> j + 2, ss |-> <<SBind(IdName(At(ts, i + 1)), sel, IF At(ts, j + 1) = "IDstruct" THEN "struct" ELSE IF At(ts, j + 1) = "IDslice" THEN "slice" ELSE "bogus")>>])
